@@ -41,9 +41,7 @@ Definition upper_b (b : byte) : byte :=
   else b.
 Definition upper (s : str) : str := map upper_b s.
 Definition initialisms : list str :=
-  map B ["ACL"; "API"; "ASCII"; "CPU"; "CSS"; "DNS"; "EOF"; "GUID"; "HTML"; "HTTP"; "HTTPS"; "ID"; "IP"; "JSON"; "LHS";
-         "QPS"; "RAM"; "RHS"; "RPC"; "SLA"; "SMTP"; "SQL"; "SSH"; "TCP"; "TLS"; "TTL"; "UDP"; "UI"; "UID"; "UUID"; "URI";
-         "URL"; "UTF8"; "VM"; "XML"; "XMPP"; "XSRF"; "XSS"]%string.
+  [B "ACL"; B "API"; B "ASCII"; B "CPU"; B "CSS"; B "DNS"; B "EOF"; B "GUID"; B "HTML"; B "HTTP"; B "HTTPS"; B "ID"; B "IP"; B "JSON"; B "LHS"; B "QPS"; B "RAM"; B "RHS"; B "RPC"; B "SLA"; B "SMTP"; B "SQL"; B "SSH"; B "TCP"; B "TLS"; B "TTL"; B "UDP"; B "UI"; B "UID"; B "UUID"; B "URI"; B "URL"; B "UTF8"; B "VM"; B "XML"; B "XMPP"; B "XSRF"; B "XSS"].
 Definition exported (s : str) : str :=
   match s with
   | [] => []
